@@ -39,6 +39,11 @@ def gen_case(rng, i):
         a = gen.gen_const_struct(rng, shape=shape, kind=kind)
         if rng.random() < .5:   # constant with retained zero non-constant terms
             a = dict(a, names=[0, 1], terms=[[[0, 0], a["terms"][0][1]], [[1, 2], [0] * len(a["terms"][0][1])]])
+    if a["kind"] == "int" and op in ("decompose", "todict", "tonumpy", "set_dimensions", "lead_coefficient", "amax", "amin") and rng.random() < .25:
+        # 64-bit coefficients no double can hold: these functions move coefficients, they never compute with them (seeded
+        # change C19-12: decompose multiplied by a float64 identity mask)
+        for t in a["terms"]:
+            t[1] = [v if v == 0 or rng.random() < .5 else (1 if v > 0 else -1) * (2 ** int(rng.integers(53, 62)) + 1) for v in t[1]]
     c = {"id": i, "kind": "c19", "op": op, "a": a, "graded": bool(rng.integers(2)), "reverse": bool(rng.integers(2))}
     if op == "set_dimensions":
         c["dims"] = int(rng.integers(1, 6))
